@@ -382,6 +382,8 @@ class LineMachine:
         self.commented = False
         self.rule_lines = []         # segments of each `#"` line
         self.cur_rule = None
+        self.prefix = ''             # literal text of the line so far, None
+                                     # once a hole was written on it
 
     def state(self):
         return (self.line_start, self.commented)
@@ -407,17 +409,23 @@ class LineMachine:
                         self.problems.append(('uncommented-line', part[:60]))
                     self.line_start = False
                 self._rule_add(Lit(part))
+                if self.prefix is not None:
+                    self.prefix += part
             if i < len(parts) - 1:
                 self._rule_add(Lit('\n'))
                 self.cur_rule = None
                 self.line_start = True
                 self.commented = False
+                self.prefix = ''
 
     def feed(self, segs):
         for s in segs:
             if isinstance(s, Lit):
                 self.lit(s.text)
             elif isinstance(s, Hole):
+                prefix, self.prefix = self.prefix, None
+                if s.cls == 'SINGLE-LINE':
+                    self.prefix = prefix     # consulted below, then dropped
                 if s.cls == 'SANITIZED':
                     if not self.line_start and not self.commented:
                         self.problems.append(
@@ -429,10 +437,17 @@ class LineMachine:
                         self.commented = True
                         self.line_start = False
                 elif s.cls == 'SINGLE-LINE':
+                    if self.prefix == '#' and _json_scalar_of(s.node,
+                                                              '.name'):
+                        # `#` + the name as a JSON scalar: the rule line
+                        # with a serialised name
+                        self.cur_rule = [Lit('#')]
+                        self.rule_lines.append(self.cur_rule)
                     if self.line_start or not self.commented:
                         self.problems.append(('raw-value-outside-comment',
                                               s.source))
                     self.line_start = False
+                    self.prefix = None
                     self._rule_add(s)
                 else:
                     self.problems.append(('multi-line-source-unsanitized',
@@ -465,6 +480,14 @@ class LineMachine:
                 self._rule_add(s)
 
 
+def _json_scalar_of(node, suffix):
+    """node is jsonutils.dumps(<x>) of an attribute ending in suffix."""
+    return isinstance(node, ast.Call) and U(node.func).endswith(
+        ('jsonutils.dumps', 'json.dumps')) and len(node.args) == 1 and \
+        U(node.args[0]).endswith(suffix) and not any(
+            k.arg == 'indent' for k in node.keywords)
+
+
 def analyse_lines(segs, nl=False):
     """Returns (problems [(kind, text)], rule lines) for an abstract output.
     nl: the comment formatter's result ends with a newline."""
@@ -488,6 +511,16 @@ def rule_line_ok(prog, module, line):
                          ('Lit', '"\n')]:
         return True, ''
     segs = merge(line)
+    if len(segs) == 5 and shape[0] == ('Lit', '#') and shape[2] == (
+            'Lit', ': ') and shape[4] == ('Lit', '\n') and \
+            _json_scalar_of(getattr(segs[1], 'node', None),
+                            'default.name') and U(
+                                segs[1].node.args[0]) == 'default.name' \
+            and _json_scalar_of(getattr(segs[3], 'node', None),
+                                'default.check_str') and U(
+                                    segs[3].node.args[0]) == \
+            'default.check_str':
+        return True, ''
     if len(segs) == 5 and shape[:3] == [('Lit', '#"'),
                                         ('Hole', 'default.name'),
                                         ('Lit', '": ')] and \
